@@ -16,7 +16,7 @@ import (
 // allocation bound of C10: Δ TotalAlloc <= allocA + allocB*len(input)
 const (
 	allocA = 32 << 10
-	allocB = 64
+	allocB = 160
 )
 
 // inputBuffer: the bytes in a buffer that may have spare capacity behind them (a receive array reused for reading).
@@ -71,7 +71,7 @@ func oracleC10(c *CaseBytes) *Failure {
 		Col.MaxExtra("max_ratio_when_alloc>32KiB", float64(delta)/float64(max(1, len(c.W))))
 	}
 	if delta > bound {
-		return failf("C10/"+c.Type+"/alloc", "Decode of %d input bytes %s allocated %d bytes (bound %d = 32 KiB + 64 x input length)", len(c.W), hexClip(c.W), delta, bound)
+		return failf("C10/"+c.Type+"/alloc", "Decode of %d input bytes %s allocated %d bytes (bound %d = 32 KiB + 160 x input length)", len(c.W), hexClip(c.W), delta, bound)
 	}
 	if len(c.Twin) > 0 {
 		// metamorphic: W differs from Twin only in overstating a count/length. Claiming more must not cost memory
@@ -373,5 +373,5 @@ func TestC10(t *testing.T) {
 	Col.Property = "C10"
 	ReplayRegress(t, "C10")
 	runHostile(t, "C10", "c10", oracleC10)
-	Col.Extra["alloc_bound"] = "32768 + 64*len(input) bytes (TotalAlloc delta around one Decode)"
+	Col.Extra["alloc_bound"] = "absolute: 32768 + 160*len(input) bytes (TotalAlloc delta around one Decode); relative: an input that only overstates a count/length may allocate at most what its truthful twin allocates + 32768 + 24*len(input)"
 }
